@@ -1864,3 +1864,413 @@ func ruleIndexRaisesCounterAboveSupervoxels(r *Run) {
 	}
 	r.check(n >= 2, "labelmap:index-stores-that-raise-the-counter", fmt.Sprintf("%d", n), "fewer than the two confirmed by reading (POST indices, POST index): rule needs review", "-")
 }
+
+// ---------------------------------------------------------------------------------------------
+// R12.19 — the label counter is raised before the request is answered: updateMaxLabel is not called
+// from a goroutine (a `go` statement on it, or inside a function literal that is started with `go`).
+// Scope: the functions that store a label index.  (The voxel-ingest paths start updateBlockMaxLabel
+// and, in aggregateBlockChanges, updateMaxLabel with `go` in the unchanged tree; no demonstration of a
+// stale counter after the acknowledgement could be produced there, so they are listed in DESIGN.md
+// §8.9 and not armed.)
+
+func init() {
+	register(ruleDef{ID: "R12.19", Prop: "C12", Tier: "quick", Floor: 2,
+		Title: "a stored label index has raised the label counter when the request is answered: in the labelmap functions that store a label index, updateMaxLabel is not called by a `go` statement or inside a function literal started with `go`",
+		Fn:    ruleCounterRaisedSynchronously})
+}
+
+func ruleCounterRaisedSynchronously(r *Run) {
+	w := r.W
+	n := 0
+	goStarted := func(f *ssa.Function) bool {
+		// f is a function literal whose closure value is the operand of a `go` statement
+		if f.Parent() == nil {
+			return false
+		}
+		for _, b := range f.Parent().Blocks {
+			for _, in := range b.Instrs {
+				g, ok := in.(*ssa.Go)
+				if !ok {
+					continue
+				}
+				if mc, ok := g.Call.Value.(*ssa.MakeClosure); ok && mc.Fn == ssa.Value(f) {
+					return true
+				}
+				if fn, ok := g.Call.Value.(*ssa.Function); ok && fn == f {
+					return true
+				}
+			}
+		}
+		return false
+	}
+	for _, f := range w.RepoFuncs {
+		if relPkg(pkgPathOf(f)) != "datatype/labelmap" || len(f.Blocks) == 0 || strings.HasSuffix(w.fposFile(f), "_test.go") {
+			continue
+		}
+		// the functions that store a label index themselves (also through a function literal they create)
+		outer := f
+		if f.Parent() != nil {
+			outer = f.Parent()
+		}
+		storesIndex := false
+		for _, c := range calls(outer) {
+			if callee := staticCallee(c); callee != nil && (callee.Name() == "putLabelIndex" || (callee.Name() == "Marshal" && callee.Pkg != nil && strings.HasSuffix(callee.Pkg.Pkg.Path(), "protobuf/proto"))) {
+				storesIndex = true
+			}
+		}
+		if !storesIndex {
+			continue
+		}
+		k := 0
+		for _, c := range calls(f) {
+			callee := staticCallee(c)
+			if callee == nil || callee.Name() != "updateMaxLabel" {
+				continue
+			}
+			k++
+			n++
+			_, isGo := c.(*ssa.Go)
+			async := isGo || goStarted(f)
+			r.check(!async, fmt.Sprintf("%s:updateMaxLabel#%d:synchronous", fname(f), k), "called on the request's own goroutine",
+				"the label counter is raised in a goroutine that the request does not wait for: the write is acknowledged first, and a nextlabel, cleave or split issued right after it can hand out a label that the acknowledged write already uses", w.pos(c.Pos()))
+		}
+	}
+	r.check(n >= 2, "labelmap:updateMaxLabel-calls-after-index-stores", fmt.Sprintf("%d calls", n), "fewer than the two confirmed by reading: rule needs review", "-")
+}
+
+// ---------------------------------------------------------------------------------------------
+// R16.24 — a value kept by a condition keeps its stamps: where updateJSON puts the stored value of
+// a protected (conditional) field back into the posted record, it also takes the field out of the
+// set of newly set fields, from which the _user/_time stamps are written.
+
+func init() {
+	register(ruleDef{ID: "R16.24", Prop: "C16", Tier: "quick", Floor: 2,
+		Title: "stamps change only with the value: in neuronjson's update step, a store of the stored record's value back into the posted record that is decided by a lookup in the set of protected (conditional) fields is accompanied, in the same block, by a delete of that field from another local set (the newly-set fields that receive fresh _user/_time stamps)",
+		Fn:    ruleProtectedFieldKeepsStamps})
+}
+
+func ruleProtectedFieldKeepsStamps(r *Run) {
+	w := r.W
+	n := 0
+	for _, f := range w.RepoFuncs {
+		if relPkg(pkgPathOf(f)) != "datatype/neuronjson" || len(f.Blocks) == 0 || strings.HasSuffix(w.fposFile(f), "_test.go") {
+			continue
+		}
+		for _, b := range f.Blocks {
+			for _, in := range b.Instrs {
+				mu, ok := in.(*ssa.MapUpdate)
+				if !ok {
+					continue
+				}
+				if _, isParam := mu.Map.(*ssa.Parameter); !isParam {
+					continue
+				}
+				// decided by a lookup in a local set: the block's single predecessor ends in an If on the
+				// found result of a Lookup whose map is a MakeMap and whose key is this field
+				if len(b.Preds) != 1 {
+					continue
+				}
+				ifi, ok := b.Preds[0].Instrs[len(b.Preds[0].Instrs)-1].(*ssa.If)
+				if !ok || b.Preds[0].Succs[0] != b {
+					continue
+				}
+				ex, ok := ifi.Cond.(*ssa.Extract)
+				if !ok || ex.Index != 1 {
+					continue
+				}
+				lk, ok := ex.Tuple.(*ssa.Lookup)
+				if !ok || lk.Index != mu.Key {
+					continue
+				}
+				set, ok := lk.X.(*ssa.MakeMap)
+				if !ok {
+					continue
+				}
+				// the value stored comes from ranging over another record (the stored one)
+				fromRange := false
+				for d := range dataDeps(mu.Value) {
+					if _, ok := d.(*ssa.Next); ok {
+						fromRange = true
+					}
+				}
+				if !fromRange {
+					continue
+				}
+				n++
+				removed := false
+				for _, x := range b.Instrs {
+					if c, ok := x.(*ssa.Call); ok {
+						if bi, ok := c.Call.Value.(*ssa.Builtin); ok && bi.Name() == "delete" && len(c.Call.Args) == 2 && c.Call.Args[1] == mu.Key {
+							if mm, ok := c.Call.Args[0].(*ssa.MakeMap); ok && mm != set {
+								removed = true
+							}
+						}
+					}
+				}
+				r.check(removed, fmt.Sprintf("%s:protected-field-kept#%d", fname(f), n), "the kept field is taken out of the newly-set fields",
+					"the stored value of a protected field is kept but the field still counts as newly set: its _user and _time are overwritten with the posting user and the current time although the value did not change", w.pos(mu.Pos()))
+			}
+		}
+	}
+	r.check(n >= 1, "neuronjson:protected-field-stores", fmt.Sprintf("%d", n), "none found: rule needs review", "-")
+}
+
+// ---------------------------------------------------------------------------------------------
+// R20.32 / R13.17 — swap-with-last removal walks the recorded positions from the highest down: a loop
+// that overwrites s[d] with the last element and shortens s by one, with d read from a list of
+// recorded positions, indexes that list with a descending counter.  Ascending, a later (larger)
+// position can lie beyond the shortened slice: index out of range.
+
+func init() {
+	reg := func(id, prop string) {
+		register(ruleDef{ID: id, Prop: prop, Tier: "quick", Floor: 3,
+			Title: "removal by swap-with-last walks the recorded positions downwards: in every data-type loop that stores s[len(s)-1] into s[d] and re-slices s to len(s)-1, where d is read from a slice of recorded positions, the counter that indexes the recorded positions is decremented on the back edge",
+			Fn:    ruleSwapRemoveDescending})
+	}
+	reg("R20.32", "C20")
+	reg("R13.17", "C13")
+}
+
+func ruleSwapRemoveDescending(r *Run) {
+	w := r.W
+	n := 0
+	for _, f := range w.RepoFuncs {
+		if !strings.HasPrefix(relPkg(pkgPathOf(f)), "datatype/") || len(f.Blocks) == 0 || strings.HasSuffix(w.fposFile(f), "_test.go") {
+			continue
+		}
+		k := 0
+		for _, b := range f.Blocks {
+			for _, in := range b.Instrs {
+				sl, ok := in.(*ssa.Slice)
+				if !ok || sl.High == nil || sl.Low != nil {
+					continue
+				}
+				hb, ok := sl.High.(*ssa.BinOp)
+				if !ok || hb.Op != token.SUB {
+					continue
+				}
+				if c, ok := constInt(hb.Y); !ok || c != 1 {
+					continue
+				}
+				lc, ok := hb.X.(*ssa.Call)
+				if !ok {
+					continue
+				}
+				same := func(a, b ssa.Value) bool { return a == b || placeKey(a) == placeKey(b) }
+				if bi, ok := lc.Call.Value.(*ssa.Builtin); !ok || bi.Name() != "len" || !same(lc.Call.Args[0], sl.X) {
+					continue
+				}
+				// in the same block: a store into s[d] with d read from another slice
+				var posIdx ssa.Value
+				for _, x := range b.Instrs {
+					st, ok := x.(*ssa.Store)
+					if !ok {
+						continue
+					}
+					ia, ok := st.Addr.(*ssa.IndexAddr)
+					if !ok || !same(ia.X, sl.X) {
+						continue
+					}
+					if ld, ok := stripConv(ia.Index).(*ssa.UnOp); ok && ld.Op == token.MUL {
+						if ia2, ok := ld.X.(*ssa.IndexAddr); ok && !same(ia2.X, sl.X) {
+							posIdx = ia2.Index
+						}
+					}
+				}
+				if posIdx == nil {
+					continue
+				}
+				k++
+				n++
+				desc := false
+				if phi, ok := stripConv(posIdx).(*ssa.Phi); ok {
+					for _, e := range phi.Edges {
+						if bo, ok := e.(*ssa.BinOp); ok && bo.X == ssa.Value(phi) {
+							if c, ok := constInt(bo.Y); ok && ((bo.Op == token.SUB && c > 0) || (bo.Op == token.ADD && c < 0)) {
+								desc = true
+							}
+						}
+					}
+				}
+				r.check(desc, fmt.Sprintf("%s:swap-remove#%d:descending", fname(f), k), "the recorded positions are visited from the highest down",
+					"elements are removed by swap-with-last while the recorded positions are visited in ascending order: after the first removal the slice is shorter, so a later position can lie past its end (index out of range, a panic in the request or sync handler), or an element that was swapped in is skipped", w.pos(sl.Pos()))
+			}
+		}
+	}
+	r.check(n >= 3, "datatypes:swap-remove-loops", fmt.Sprintf("%d swap-with-last removal loops over recorded positions", n), "fewer than the three confirmed by reading: rule needs review", "-")
+}
+
+// ---------------------------------------------------------------------------------------------
+// R5.14 — a closed interval with equal ends is not empty: no range reader returns early on a
+// non-strict comparison of its two bounds.
+
+func init() {
+	register(ruleDef{ID: "R5.14", Prop: "C05", Tier: "quick", Floor: 2,
+		Title: "a closed key interval with equal ends holds its key: in the data types' range readers (functions with two string bounds), no branch decided by a non-strict comparison (>=, <=) of the two bound parameters leads straight to a return — [k,k] must be scanned like any other interval, as the point read finds k",
+		Fn:    ruleDegenerateIntervalScanned})
+}
+
+func ruleDegenerateIntervalScanned(r *Run) {
+	w := r.W
+	n := 0
+	for _, f := range w.RepoFuncs {
+		if !strings.HasPrefix(relPkg(pkgPathOf(f)), "datatype/") || len(f.Blocks) == 0 || f.Parent() != nil || strings.HasSuffix(w.fposFile(f), "_test.go") {
+			continue
+		}
+		var strs []*ssa.Parameter
+		for _, p := range f.Params {
+			if b, ok := p.Type().Underlying().(*types.Basic); ok && b.Kind() == types.String {
+				strs = append(strs, p)
+			}
+		}
+		if len(strs) < 2 {
+			continue
+		}
+		// range readers: two string parameters that become the bounds of a range call of the store
+		boundSet := map[ssa.Value]bool{}
+		for _, g := range withClosures(f) {
+			for _, c := range calls(g) {
+				if !strings.Contains(methodNameOf(c), "Range") {
+					continue
+				}
+				for _, a := range c.Common().Args {
+					for d := range dataDeps(a) {
+						if p, ok := d.(*ssa.Parameter); ok {
+							boundSet[p] = true
+						}
+						if fv, ok := d.(*ssa.FreeVar); ok {
+							// a bound captured by the closure that issues the range call
+							for i, v := range g.FreeVars {
+								if v == fv && g.Parent() == f {
+									for _, b := range f.Blocks {
+										for _, in := range b.Instrs {
+											if mc, ok := in.(*ssa.MakeClosure); ok && mc.Fn == ssa.Value(g) && i < len(mc.Bindings) {
+												for d2 := range dataDeps(mc.Bindings[i]) {
+													if p, ok := d2.(*ssa.Parameter); ok {
+														boundSet[p] = true
+													}
+												}
+											}
+										}
+									}
+								}
+							}
+						}
+					}
+				}
+			}
+		}
+		isBound := func(v ssa.Value) bool {
+			p, ok := v.(*ssa.Parameter)
+			if !ok || !boundSet[p] {
+				return false
+			}
+			b, ok := p.Type().Underlying().(*types.Basic)
+			return ok && b.Kind() == types.String
+		}
+		bounds := 0
+		for _, p := range strs {
+			if isBound(p) {
+				bounds++
+			}
+		}
+		if bounds < 2 {
+			continue
+		}
+		n++
+		bad := ""
+		for _, b := range f.Blocks {
+			ifi, ok := b.Instrs[len(b.Instrs)-1].(*ssa.If)
+			if !ok {
+				continue
+			}
+			bo, ok := ifi.Cond.(*ssa.BinOp)
+			if !ok || (bo.Op != token.GEQ && bo.Op != token.LEQ) || !isBound(bo.X) || !isBound(bo.Y) || bo.X == bo.Y {
+				continue
+			}
+			for _, s := range b.Succs {
+				if _, isRet := s.Instrs[len(s.Instrs)-1].(*ssa.Return); isRet && len(s.Instrs) <= 4 {
+					bad = w.pos(bo.Pos())
+				}
+			}
+		}
+		r.check(bad == "", fname(f)+":degenerate-interval-scanned", "no early return on a non-strict comparison of the bounds",
+			"the reader returns early when its first bound is >= (or <=) its second: the closed interval [k,k] is answered with nothing although GET key/k finds the key", bad)
+	}
+	r.check(n >= 2, "datatypes:range-readers-with-string-bounds", fmt.Sprintf("%d", n), "fewer than confirmed by reading: rule needs review", "-")
+}
+
+// ---------------------------------------------------------------------------------------------
+// R13.18 — subscribers are told of an added element only when one was added: in an annotation
+// function that decides between append and replace by looking the position up in a local map, every
+// report of an addition (append to the Add list of the delta) is decided by that lookup.
+
+func init() {
+	register(ruleDef{ID: "R13.18", Prop: "C13", Tier: "quick", Floor: 2,
+		Title: "an addition is reported only where one happened: in every annotation function that looks an element's position up in a local position map (append if absent, replace if present), each store into the delta's Add list is decided by an edge of that lookup, not made on the merged path",
+		Fn:    ruleAddReportedOnlyWhenAdded})
+}
+
+func ruleAddReportedOnlyWhenAdded(r *Run) {
+	w := r.W
+	n := 0
+	for _, f := range w.RepoFuncs {
+		if relPkg(pkgPathOf(f)) != "datatype/annotation" || len(f.Blocks) == 0 || strings.HasSuffix(w.fposFile(f), "_test.go") {
+			continue
+		}
+		var lookIfs []*ssa.If
+		for _, b := range f.Blocks {
+			ifi, ok := b.Instrs[len(b.Instrs)-1].(*ssa.If)
+			if !ok {
+				continue
+			}
+			ex, ok := ifi.Cond.(*ssa.Extract)
+			if !ok || ex.Index != 1 {
+				continue
+			}
+			lk, ok := ex.Tuple.(*ssa.Lookup)
+			if !ok {
+				continue
+			}
+			if _, isLocal := lk.X.(*ssa.MakeMap); !isLocal {
+				continue
+			}
+			// a position map: its values are ints (positions in a slice)
+			if mt, ok := lk.X.Type().Underlying().(*types.Map); ok {
+				if b, ok := mt.Elem().Underlying().(*types.Basic); ok && b.Kind() == types.Int {
+					lookIfs = append(lookIfs, ifi)
+				}
+			}
+		}
+		if len(lookIfs) == 0 {
+			continue
+		}
+		k := 0
+		for _, b := range f.Blocks {
+			for _, in := range b.Instrs {
+				st, ok := in.(*ssa.Store)
+				if !ok {
+					continue
+				}
+				fa, ok := st.Addr.(*ssa.FieldAddr)
+				if !ok {
+					continue
+				}
+				if name, _, _ := fieldName(fa); name != "Add" || !strings.Contains(fa.X.Type().String(), "DeltaModifyElements") {
+					continue
+				}
+				k++
+				n++
+				decided := false
+				for _, ifi := range lookIfs {
+					if guardedByEdge(ifi, 0, st) || guardedByEdge(ifi, 1, st) {
+						decided = true
+					}
+				}
+				r.check(decided, fmt.Sprintf("%s:delta.Add#%d:decided-by-position-lookup", fname(f), k), "the report is made on an edge of the position lookup",
+					"an addition is reported to the subscribers on the path where the append and the replace branch have merged: an element that only replaces one at an existing position is counted as new, so labelsz counts and rankings drift from the stored elements", w.pos(st.Pos()))
+			}
+		}
+	}
+	r.check(n >= 2, "annotation:addition-reports-beside-position-lookups", fmt.Sprintf("%d", n), "fewer than confirmed by reading: rule needs review", "-")
+}
